@@ -55,7 +55,13 @@ fn child() {
             "new" => {
                 let d = step["d"].as_u64().unwrap();
                 let (c, flag) = RecCollector::new(d, FilterRec::from_json(&step["f"]), log.clone());
-                handles.insert(d, Dispatch::new(c));
+                // `static`: a collector that lives for the whole process, installed through Dispatch::from_static
+                if step["static"].as_bool().unwrap_or(false) {
+                    let leaked: &'static RecCollector = Box::leak(Box::new(c));
+                    handles.insert(d, Dispatch::from_static(leaked));
+                } else {
+                    handles.insert(d, Dispatch::new(c));
+                }
                 flags.insert(d, flag);
             }
             "drop" => {
